@@ -2,7 +2,7 @@
 # Model of the PIN → rectangular TSV conversion  (mokapot/parsers/pin_to_tsv.py)
 
 Import-free.  Text is `List Char`.  The model follows the code statement by
-statement: Python file iteration (`pyLines`), `str.strip`, `str.split(sep)`,
+statement: Python file iteration (`pyLines`), `str.rstrip("\r\n")`, `str.split(sep)`,
 list slicing with Python's negative-index rules, `sep.join`, `str.startswith`.
 The column separator is one character `sepC` (default `'\t'`), the protein
 separator an arbitrary string `sepP` (default `":"`).
@@ -30,6 +30,14 @@ def lstrip (l : Str) : Str := l.dropWhile pyIsSpace
 def rstrip (l : Str) : Str := (l.reverse.dropWhile pyIsSpace).reverse
 /-- `str.strip()` -/
 def strip (l : Str) : Str := rstrip (lstrip l)
+
+/-- the characters `str.rstrip("\r\n")` removes -/
+def isEol (c : Char) : Bool := c == '\r' || c == '\n'
+/-- `line.rstrip("\r\n")`: only the line terminator (and carriage returns left before it by a source that
+does not translate newlines) is removed — blanks, tabs and hence empty first / last fields stay.
+(Until commit 750c44b of /repo the code used `str.strip()`, kept above as `strip` for the refuted
+variant `Mutants.pinToTsvStripWs`.)  src: mokapot/parsers/pin_to_tsv.py:51,192,199,212 -/
+def chomp (l : Str) : Str := (l.reverse.dropWhile isEol).reverse
 
 def consHead (c : Char) : List Str → List Str
   | [] => [[c]]
@@ -101,16 +109,16 @@ there is no second line.  src: mokapot/parsers/pin_to_tsv.py:199-220 -/
 def pinBody (sepC : Char) (sepP : Str) (idx nCol : Nat) : List Str → Except PinErr (List Str)
   | [] => .error .stopIteration
   | l2 :: more =>
-    .ok (secondOut sepC sepP idx nCol (strip l2)
-          ++ more.map (fun line => convertLine sepC sepP idx nCol (strip line) ++ ['\n']))
+    .ok (secondOut sepC sepP idx nCol (chomp l2)
+          ++ more.map (fun line => convertLine sepC sepP idx nCol (chomp line) ++ ['\n']))
 
-/-- after the header line has been stripped: `parse_pin_header_columns`
+/-- after the header line has lost its terminator (`rstrip("\r\n")`): `parse_pin_header_columns`
 (`n_col = len(columns)`, `idx = columns.index("Proteins")`, assertion), then
 the body.  The header itself is written first.
 src: mokapot/parsers/pin_to_tsv.py:22-55, 192-194 -/
 def pinAfterHeader (sepC : Char) (sepP : Str) (header : Str) (rest : List Str) :
     Except PinErr (List Str) :=
-  let columns := splitOn sepC (strip header)
+  let columns := splitOn sepC (chomp header)
   if columns.contains proteinsName then
     (pinBody sepC sepP (columns.idxOf proteinsName) columns.length rest).map
       (fun out => (header ++ ['\n']) :: out)
@@ -123,7 +131,7 @@ written; the model only reports the error.)
 src: mokapot/parsers/pin_to_tsv.py:154-220 -/
 def pinToTsvLines (sepC : Char) (sepP : Str) : List Str → Except PinErr (List Str)
   | [] => .error .stopIteration
-  | h :: rest => pinAfterHeader sepC sepP (strip h) rest
+  | h :: rest => pinAfterHeader sepC sepP (chomp h) rest
 
 /-- `pin_to_valid_tsv` from input text to output text -/
 def pinToTsv (sepC : Char) (sepP : Str) (text : Str) : Except PinErr Str :=
@@ -238,43 +246,46 @@ def allB {β : Type} (p : β → Bool) (l : List β) : Bool := l.all p
 /-- a field contains neither the column separator nor a newline -/
 def fieldOk (sepC : Char) (f : Str) : Bool := !f.contains sepC && !f.contains '\n'
 
-/-- whitespace padding: only whitespace, no newline -/
-def padOk (p : Str) : Bool := p.all pyIsSpace && !p.contains '\n'
+/-- what may follow a line before its terminator and is removed by the conversion: carriage returns
+(a CRLF text given to the function by a source that does not translate newlines) -/
+def padOk (p : Str) : Bool := p.all (fun c => c == '\r')
 
-def headNonSpace (f : Str) : Bool := (f.head?.map (fun c => !pyIsSpace c)).getD false
-def lastNonSpace (f : Str) : Bool := (f.getLast?.map (fun c => !pyIsSpace c)).getD false
+/-- the last field of a line does not end with a carriage return (`rstrip("\r\n")` would take it for
+a part of the line terminator).  Empty first and last fields, blanks at either end are all allowed. -/
+def edgeOk (fs : List Str) : Bool := (fs.getLast?.map (fun f => f.getLast? != some '\r')).getD false
 
-/-- the first field of a line starts, and the last field ends, with a
-non-whitespace character (so `strip()` removes only the padding) -/
-def edgeOk (fs : List Str) : Bool :=
-  (fs.head?.map headNonSpace).getD false && (fs.getLast?.map lastNonSpace).getD false
-
-/-- well-formed row for a header with `nCol` columns and the protein column at `idx` -/
+/-- well-formed row for a header with `nCol` columns and the protein column at `idx`: nothing before the
+first field, only carriage returns after the last one; the fields may be empty -/
 def rowOk (sepC : Char) (idx nCol : Nat) (r : PinRow) : Bool :=
-  padOk r.padL && padOk r.padR &&
+  r.padL.isEmpty && padOk r.padR &&
   r.pre.length == idx && !r.prots.isEmpty && r.post.length + idx + 1 == nCol &&
   r.fields.all (fieldOk sepC) && edgeOk r.fields
 
 /-- well-formed DefaultDirection line -/
-def ddOk (l : Str) : Bool := !l.contains '\n' && isDD (strip l)
+def ddOk (l : Str) : Bool := !l.contains '\n' && isDD (chomp l)
 
 /-- the line that follows the header is a PSM row: it must not itself look
 like a DefaultDirection line -/
 def firstRowOk (sepC : Char) (d : PinDoc) : Bool :=
   d.dd.isSome || (d.rows.head?.map (fun r => !isDD (joinWith [sepC] r.fields))).getD false
 
+/-- a last line that is empty (one empty field) only exists when it is terminated -/
+def lastLineOk (sepC : Char) (d : PinDoc) : Bool :=
+  d.trailingNl || ((d.lines sepC).getLast?.map (fun l => !l.isEmpty)).getD true
+
 /-- **Well-formed PIN document**: header with a `Proteins` column, optional
 DefaultDirection line, rows with `idx` fields, then ≥ 1 proteins, then the
-remaining fields; no field contains a separator or newline; lines may be
-padded with whitespace. -/
+remaining fields; no field contains a separator or newline; fields may be empty
+or blank, also the first and the last one of a line; lines may end with `"\r\n"`. -/
 def PinDoc.wf (sepC : Char) (d : PinDoc) : Bool :=
   sepC != '\n' &&
-  padOk d.hpadL && padOk d.hpadR && d.cols.all (fieldOk sepC) && edgeOk d.cols &&
+  d.hpadL.isEmpty && padOk d.hpadR && d.cols.all (fieldOk sepC) && edgeOk d.cols &&
   d.cols.contains proteinsName &&
   (d.dd.map ddOk).getD true &&
   d.rows.all (rowOk sepC (d.cols.idxOf proteinsName) d.cols.length) &&
   (d.dd.isSome || !d.rows.isEmpty) &&
-  firstRowOk sepC d
+  firstRowOk sepC d &&
+  sepC != '\r' && lastLineOk sepC d
 
 /-- the protein separator does not disturb the table structure -/
 def sepPOk (sepC : Char) (sepP : Str) : Bool := fieldOk sepC sepP
@@ -282,6 +293,10 @@ def sepPOk (sepC : Char) (sepP : Str) : Bool := fieldOk sepC sepP
 /-- the first converted row does not look like a DefaultDirection line -/
 def firstTsvRowOk (sepC : Char) (sepP : Str) (d : PinDoc) : Bool :=
   (d.rows.head?.map (fun r => !isDD (r.tsvLine sepC sepP))).getD false
+
+/-- the converted rows do not end with a carriage return either (needed when the output is read again:
+a last protein that is empty after a separator / neighbour ending with `'\r'`) -/
+def tsvEdgeOk (sepP : Str) (d : PinDoc) : Bool := d.rows.all (fun r => edgeOk (r.tsvFields sepP))
 
 /-- **Specification of the validity test** on the lines of a file (Boolean
 form, evaluated by the driver): at least two lines, the second is not a
@@ -294,12 +309,12 @@ def validSpecB (sepC : Char) (lines : List Str) : Bool :=
 /-! ## Entry points that work on files, and the header helper (extension) -/
 
 /-- `parse_pin_header_columns(header, sep_column)` as a function of its own
-(`header.strip().split(sep)`, the assertion, `len(columns)`,
+(`header.rstrip("\r\n").split(sep)`, the assertion, `len(columns)`,
 `columns.index("Proteins")`): `(n_col, idx_protein_col)`.
 `pinAfterHeader` above inlines exactly this (`pinAfterHeader_eq_parseHeaderCols`).
 src: mokapot/parsers/pin_to_tsv.py:22-55 -/
 def parseHeaderCols (sepC : Char) (header : Str) : Except PinErr (Nat × Nat) :=
-  let columns := splitOn sepC (strip header)
+  let columns := splitOn sepC (chomp header)
   if columns.contains proteinsName then .ok (columns.length, columns.idxOf proteinsName)
   else .error .assertion
 
